@@ -2,6 +2,7 @@ package wb
 
 import (
 	"bytes"
+	"encoding/gob"
 	"encoding/hex"
 	"math/big"
 	"testing"
@@ -126,6 +127,29 @@ var c04 = gen.Register(&gen.Check[caseC04]{
 			}
 			if !bytes.Equal(r.Encode(), want) {
 				return gen.Fail(rt.name+"/value", "%s re-encodes to %x, want %x", rt.name, r.Encode(), want)
+			}
+		}
+		// the generic serialisers that pick up encoding.BinaryMarshaler / BinaryUnmarshaler (encoding/gob; a value inside another
+		// struct) must round-trip as well
+		if m.Inf || m.X.Uint64()%4 == 0 {
+			type envelope struct {
+				Tag string
+				P   *secp256k1.Element
+				Q   secp256k1.Element // by value
+			}
+			var buf bytes.Buffer
+			in := envelope{Tag: "t", P: e}
+			in.Q.Set(e)
+			if gerr := gob.NewEncoder(&buf).Encode(&in); gerr == nil {
+				out := envelope{P: secp256k1.Base().Double()}
+				out.Q.Base()
+				if gerr = gob.NewDecoder(&buf).Decode(&out); gerr != nil {
+					return gen.Fail("roundtrip/gob", "gob cannot decode what it encoded for %s: %v", m, gerr)
+				}
+				if out.P == nil || out.P.Equal(e) != 1 || out.Q.Equal(e) != 1 || !bytes.Equal(out.P.Encode(), want) || !bytes.Equal(out.Q.Encode(), want) {
+					return gen.Fail("roundtrip/gob", "gob round trip of %s gives %x / %x, want %x", m, out.P.Encode(), out.Q.Encode(), want)
+				}
+				o.Class("gob-roundtrip")
 			}
 		}
 		// decode into a receiver that already holds a point in this representation an encoding that coincides with the
